@@ -2,7 +2,7 @@
 import re, json, random
 from . import common, projgen, projcheck, projrun, clirun
 
-PROF = projgen.profile(n_builders=(1, 3), n_apps=(1, 3), p_tasks=0.75, p_task_fail=0.3, p_cli_builders=0.0, p_cli_apps=0.0,
+PROF = projgen.profile(n_builders=(1, 3), n_apps=(1, 3), p_tasks=0.75, p_task_fail=0.3, p_task_killed=0.15, p_cli_builders=0.0, p_cli_apps=0.0,
                        p_cli_select=0.2, p_cli_disable=0.15, p_cli_define=0.3, p_custom_build=0.02, p_download=0.02, p_app_elsewhere=0.1,
                        p_hard_missing=0.0, p_cycle=0.0, p_varopts=0.1)
 TASKS = ["run", "flash", "info", "mtask", "nosuchtask"]
@@ -147,7 +147,7 @@ def judge(chk, sc, step):
             ninja_failed = bool(nl) and inv.get("ninja_rc", 0) != 0
             if ninja_failed and sl:
                 chk.fail_oracle("task:runs-after-failed-build", f"{inv}: ninja failed but tasks ran", {"scenario": sc})
-            fails = [i for i, l in enumerate(sl) if "FAILME" in l]
+            fails = [i for i, l in enumerate(sl) if "FAILME" in l or "KILLME" in l]
             k = fl.get("keep_going", 1)
             if k > 0 and len(fails) >= k and fails[k - 1] != len(sl) - 1:
                 chk.fail_oracle("task:keep-going", f"{inv}: execution continued after {k} failure(s): {sl}", {"scenario": sc})
